@@ -198,7 +198,7 @@ def run_payload_route(cid, ents, quick, acc):
 def run_extreme_lengths(acc):
     """Payload route at and beyond the largest length a 2-byte length field can express."""
     for cid in (b"\x05\x01", b"\x0a\x04", b"\x00\x00", b"\x21\x04", b"\x06\x8a"):
-        for n in (65534, 65535, 65536, 65537, 65540, 70000, 131072):
+        for n in (251, 252, 253, 255, 256, 508, 764, 4092, 65532, 65534, 65535, 65536, 65537, 65540, 70000, 131072):
             for mode in (GET, SET):
                 pl = bytes(n)
                 site = f"payload_extreme|{'fits' if n <= 65535 else 'exceeds_u2'}"
@@ -298,7 +298,7 @@ def run_tier(tier, t0):
         rule=(
             f"{nr} routed definitions x keyword route (counts 0..2; every attribute at its boundary values) ; every named class/ID x payload route x "
             + ("lengths {0,1,2,3,nominal-1,nominal,nominal+1,nominal+16} x 2 fills" if q else "every length 0..nominal+16 x 4 fills")
-            + " x its modes; no-keyword form of every message ID x 3 modes; unknown class/IDs; payload lengths 65,534..131,072 (at and beyond the 2-byte length field); config_set/del/poll with 0..64 keys by name and by ID; every construction attempted by bytes, ints and names. "
+            + " x its modes; no-keyword form of every message ID x 3 modes; unknown class/IDs; payload lengths 251..131,072 (256-byte block boundaries of the checksummed content; at and beyond the 2-byte length field); config_set/del/poll with 0..64 keys by name and by ID; every construction attempted by bytes, ints and names. "
             "states = definitions covered; transitions = frames checked against the independent framing oracle; distinct_nontrivial = (route, mode, built/refused) classes"
         ),
         assumptions=["independent Fletcher/framing in mc/refmodel/core.py", "the names form is compared where the message ID has a unique name (O11)"],
